@@ -30,6 +30,7 @@ type OpFault struct {
 const (
 	KRun        = "run"        // Run with fresh tensor objects holding Inputs
 	KSame       = "same"       // Run again with the very tensor objects of call Ref of this task
+	KRefill     = "refill"     // the caller re-uses its buffers: the tensor objects of call Ref, overwritten in place with Inputs, are passed again
 	KFeedback   = "feedback"   // Run with the outputs of call Ref wherever they fit a declared input, fresh objects elsewhere
 	KBad        = "bad"        // Run with one deliberately invalid input (Inputs already holds the bad set)
 	KOpFault    = "opfault"    // Run during which an operator fails or panics at node Fault.Node
